@@ -41,7 +41,11 @@ def space(tier):
     seen = set(p1)
     g2 = G.Grammar(accs=("acc1", "acc2"), calls=(), rich=False, max_depth=2, cfor=b["cfor"][:1])
     p2 = [p for p in g2.programs(3 if tier == "quick" else 4) if G.count_nodes(p, "L") >= 2 and p not in seen]
-    return p1 + p2 + G.skeletons("acc1")
+    slim = []
+    if tier == "quick":
+        seen |= set(p2)
+        slim = [p for p in G.slim_programs(b["nodes"] + 1) if p not in seen and G.count_nodes(p, "L") >= 2 and G.count_nodes(p, "FOR") >= 1]
+    return p1 + p2 + slim + G.skeletons("acc1")
 
 
 def evaluate(prog, only_vector=None, tier=None) -> CaseResult:
